@@ -1349,6 +1349,16 @@ func (x *Exec) readerWhere() (string, []string) {
 		if x.baseline[goroutineID(g)] {
 			continue
 		}
+		if strings.Contains(g, "sched.(*S).Arrive") {
+			// parked at a gate, or a goroutine of a stopped incarnation (select {}): not passing through
+			st := g
+			if k := strings.Index(st, "\n"); k > 0 {
+				st = st[:k]
+			}
+			if strings.Contains(st, "[select") || strings.Contains(st, "[chan ") || strings.Contains(st, "Cond.Wait") {
+				continue
+			}
+		}
 		stacks = append(stacks, g)
 		if strings.Contains(g, "runner.(*Exec).reader") && !strings.Contains(g, "sim.(*Conn).Read") {
 			if j := strings.Index(g, "mqtt.(*Client)."); j >= 0 {
